@@ -53,6 +53,7 @@ func getCKKS(c *engine.Chooser, s circ.CKKSSpec) *circ.CKKS {
 type target struct {
 	name string
 	n    int
+	lite bool // structured sets only (parameter sets that exist for one code path)
 	leaf func(c *engine.Chooser, scName string, cfg *scenarioCfg)
 }
 
@@ -113,6 +114,11 @@ func targets(tier string) []target {
 		// CKKS conjugate-invariant ring: 16 real slots
 		ckksTarget(circ.CKKSSpec{LogN: 4, NQ: 4, Q0Bits: 55, QBits: 45, NP: 1, PBits: 56, LogScale: 45, CI: true}, 4),
 	}
+	// BGV 2x16 with 60-bit Q primes and one 61-bit P prime: the lazy accumulations of the evaluation run
+	// with the smallest overflow margins (QiOverflowMargin = 16), and LevelP = 0 takes the single-P gadget product
+	big := bgvTarget(circ.BGVSpec{LogN: 5, NQ: 3, QBits: 60, NP: 1, PBits: 61, T: 65537})
+	big.lite = true
+	ts = append(ts, big)
 	return ts
 }
 
@@ -147,7 +153,7 @@ func scenarios(tier string) []engine.Scenario {
 			// shrinks as the family grows: the BSGS split depends on (set, ratio, n), not on them.
 			thorough := tier == "thorough"
 			coreEntries := []int{eEvaluateNew, eEvaluate, eMany2, eSeqNew2}
-			for size := 1; size <= maxSize; size++ {
+			for size := 1; size <= maxSize && !tg.lite; size++ {
 				sets := subsetsOfSize(tg.n, size)
 				bound, entries := 1, allEntries
 				switch {
